@@ -14,6 +14,7 @@ import Hts.Lemmas.IndexTabixNames
 import Hts.Lemmas.IndexIOCsi
 import Hts.Lemmas.IndexStats
 import Hts.Lemmas.IndexRepr
+import Hts.Lemmas.IndexIORead
 import Hts.Props.C04
 namespace Hts.Props.C15
 open Hts.Model Hts.Model.Index Hts.Model.IndexIO
@@ -87,6 +88,16 @@ theorem bai_chunks_complete_after_roundtrip (recs : List Bai.BaiRec)
   refine ⟨norm (Hts.Props.C04.baiBuilt recs), readBai_writeBai _ hwf hne, ?_⟩
   rw [bai_chunks_norm]
   exact (Hts.Props.C04.bai_chunks_complete recs h r hr hp beg stop hb hq hs29 hov1 hov2 id s encLaw_id hs).1
+
+/-- "or previously read" (BAI): WHATEVER byte string `bam.ReadIndex` accepts, the index it returns is
+well-formed, so writing it and reading it back gives its canonical form, the same bytes on every
+further write, the same answers and the same statistics -/
+theorem bai_previously_read (bs : Bytes) (i : Index) (h : readBai bs = .ok (some i)) :
+    WF i ∧ readBai (writeBai i) = .ok (some (norm i)) ∧ writeBai (norm i) = writeBai i ∧
+      (∀ rid beg stop bins, chunks (norm i) rid beg stop bins = chunks i rid beg stop bins) ∧
+      (norm i).unmapped = i.unmapped := by
+  obtain ⟨hwf, hne⟩ := readBai_wf h
+  exact ⟨hwf, readBai_writeBai i hwf hne, writeBai_norm i, IndexIO.chunks_norm i, rfl⟩
 
 /-- every index built by `Add` from a coordinate-sorted input is representable (`WF`), under
 hypotheses on the INPUT only: fewer than 2^31 - 1 records, reference ids below 2^31 - 1, bin numbers as
